@@ -35,7 +35,7 @@ ASSUMPTIONS = [
     "to_dict() of the loaded certificate",
 ]
 V1N = ["device", "attestation", "ui", "signer"]
-V2N = ["quote", "attestation", "quoting_enclave", "platform_ca", "a", "b", "c"]
+V2N = ["quote", "attestation", "quoting_enclave", "platform_ca", "a", "b", "c", "sgx_root"]
 HEX = ["aa", "bb", "cc", "04" + "11" * 64, "3006020101020101", "00" * 432, "00" * 384,
        "ff" + "04" + "22" * 64]
 B64 = ["AAAA", "MIIB", "QUJD"]
@@ -114,7 +114,8 @@ def cases(draw, tier):
     for _ in range(draw(st.sampled_from([0, 0, 1, 1, 1, 2]))):
         d = draw(st.sampled_from(DEFECTS))
         defects.append(d)
-        pick = (lambda: els[draw(st.integers(0, len(els) - 1))]) if els else None
+        good = [e for e in els if _is_pairs(e)]
+        pick = (lambda: good[draw(st.integers(0, len(good) - 1))]) if good else None
         if d == "top-not-object":
             return {"kind": "doc", "v": v, "raw": draw(st.sampled_from(JUNK)), "defects": defects}
         if d == "unknown-version":
@@ -144,13 +145,13 @@ def cases(draw, tier):
                 targets.append(eget(e, "name"))
         elif d in ("cycle2", "cycle3"):
             k = 2 if d == "cycle2" else 3
-            if len(els) >= k:
-                idx = draw(st.lists(st.integers(0, len(els) - 1), min_size=k, max_size=k,
+            if len(good) >= k:
+                idx = draw(st.lists(st.integers(0, len(good) - 1), min_size=k, max_size=k,
                                     unique=True))
                 for a, b in zip(idx, idx[1:] + idx[:1]):
-                    eset(els[a], "signed_by", eget(els[b], "name"))
-                if draw(st.integers(0, 2)) > 0 and eget(els[idx[0]], "name") not in targets:
-                    targets.append(eget(els[idx[0]], "name"))
+                    eset(good[a], "signed_by", eget(good[b], "name"))
+                if draw(st.integers(0, 2)) > 0 and eget(good[idx[0]], "name") not in targets:
+                    targets.append(eget(good[idx[0]], "name"))
         elif d == "dangling-signer":
             e = pick()
             eset(e, "signed_by", draw(st.sampled_from(["nosuch", "", "ROOT", "root ",
@@ -198,6 +199,8 @@ def ser(x):
 
 def render(c):
     """-> (document text, root object for validation, version hint)"""
+    if c["kind"] == "text":
+        return c["text"], HSMCertificateRoot(ROOT1_PUB.hex()), 0
     if c["kind"] == "genuine-v1":
         cert, root_pub = c06.build(c["c06"])
         return json.dumps(cert.to_dict()), HSMCertificateRoot(root_pub.hex()), 1
@@ -397,7 +400,35 @@ def gate(tier, labels, evaluations):
     return msgs
 
 
+def fuzz_seeds(tier):
+    """A few small valid documents (v1 genuine, v2 genuine, a cyclic one)."""
+    import hypothesis
+    out = []
+    from vlib.certs import V2Cert
+    v2 = V2Cert({"root": 1, "leaf": 2, "att": 3, "inter": [4], "auth": b"a", "custom": b"c"})
+    out.append(json.dumps(v2.to_dict()).encode())
+    dev = __import__("vlib.attest", fromlist=["x"]).LedgerDevice(1, 2, 3)
+    out.append(json.dumps(dev.certificate(b"HSM:UI:5.4" + bytes(99), b"\x01" * 32,
+                                          b"HSM:SIGNER:5.4" + bytes(32), b"\x02" * 32
+                                          ).to_dict()).encode())
+    out.append(b'{"version":1,"targets":["ui"],"elements":[{"name":"ui","message":"aa",'
+               b'"signature":"aa","signed_by":"signer"},{"name":"signer","message":"aa",'
+               b'"signature":"aa","signed_by":"ui"}]}')
+    return out
+
+
+def fuzz_to_case(mode, data):
+    if mode == "raw":
+        return {"kind": "text", "text": data.decode("utf-8", "replace")}
+    from vlib.fuzzdecode import decode
+    return decode(cases("quick"), data)
+
+
 def stages(tier):
+    from vlib.runner import FuzzStage
     return [HypStage("documents", lambda t: cases(t), run_case,
                      {"quick": 400, "thorough": 15000},
-                     budget_s={"quick": 100, "thorough": 1200})]
+                     budget_s={"quick": 100, "thorough": 1200}),
+            FuzzStage("fuzz", "C16", [("raw", False), ("raw", True), ("hyp", False)],
+                      {"quick": 3000, "thorough": 60000}, run_case, fuzz_to_case, fuzz_seeds,
+                      budget_s={"quick": 45, "thorough": 600}, max_len=6000)]
